@@ -256,3 +256,10 @@ def fail_closed(vc):
             M.create_AES128 = old
     vc.prove("post.write-fails", out.raised(Boom) if mode == "raising" else out.raised(NotImplementedError))
     vc.prove("post.nothing-written", sink.writes == [])
+
+
+# the public writer / reader hand over the caller's session key (contracts of C03 / C05, obligations here too)
+from pyvc.harness import reuse as _reuse
+from contracts import C03 as _C03x, C05 as _C05x
+_reuse("C03/write_file.passes-key-and-offset", "C06/write_file.passes-key-and-offset")
+_reuse("C05/read_file.passes-flags-and-key", "C06/read_file.passes-flags-and-key")
